@@ -115,6 +115,17 @@ func cmdScen(seedS, tier string) int {
 			}
 		}
 	}
+	// both connections of a two-connection client die at once
+	for _, mode := range []mpx.ClientMode{mpx.ClientMode_OnDemand, mpx.ClientMode_AutoConnect} {
+		line, viol := runBothDie(mode)
+		fmt.Println(line)
+		if len(viol) > 0 {
+			violRuns++
+			for _, v := range viol {
+				kinds[kind(v)]++
+			}
+		}
+	}
 	// a long outage: the back-off reaches its cap and stays there for several attempts
 	{
 		line, viol := runLongOutage(3, 6500*time.Millisecond)
